@@ -133,17 +133,17 @@ func compareGuard(c *Ctx, rule, key, pos, what string, got, want *flow.Formula) 
 	}
 	sort.Strings(extraPure)
 	sort.Strings(extraOpaque)
-	wantS := what + " ≡ " + want.String()
+	wantS := what + " ≡ " + want.Pretty()
 	if len(extraOpaque) > 0 {
-		c.Run.Unknown(rule, key, pos, wantS, "condition also depends on "+strings.Join(extraOpaque, ", ")+": "+short(got.String()))
+		c.Run.Unknown(rule, key, pos, wantS, "condition also depends on "+strings.Join(extraOpaque, ", ")+": "+short(got.Pretty()))
 		return false
 	}
 	eq, witness, atoms := flow.Compare(got, want)
 	if eq && len(extraPure) == 0 {
-		c.Run.OK(rule, key, pos, wantS, fmt.Sprintf("equivalent by truth table over %d atoms: %s", len(atoms), short(got.String())), true)
+		c.Run.OK(rule, key, pos, wantS, fmt.Sprintf("equivalent by truth table over %d atoms: %s", len(atoms), short(got.Pretty())), true)
 		return true
 	}
-	msg := short(got.String())
+	msg := short(got.Pretty())
 	if len(extraPure) > 0 {
 		msg += "; depends on extra input condition(s) " + strings.Join(extraPure, ", ")
 	}
@@ -197,13 +197,8 @@ func oneSite(c *Ctx, rule, key string, fn *ssa.Function, callee string) (flow.Si
 		return sites[0], true
 	}
 	if len(sites) == 0 {
-		// the callee may have been wrapped in a helper: Undecided if the function calls in-module helpers
-		// that reach it, Bad if nothing reaches it at all
-		if flow.CallsTransitively(fn, flow.InModule, flow.Named(callee)) {
-			c.Run.Unknown(rule, key, fpos(c, fn), "one direct call of "+callee+" in "+fnKey(fn), "reached only through a helper (outside the supported subset)")
-		} else {
-			c.Run.Bad(rule, key, fpos(c, fn), "one call of "+callee+" in "+fnKey(fn), "no call of "+callee)
-		}
+		// a different algorithm or a helper: outside the supported subset, not a verdict
+		c.Run.Unknown(rule, key, fpos(c, fn), "one direct call of "+callee+" in "+fnKey(fn), "no direct call (helper or different algorithm: outside the supported subset)")
 		return flow.Site{}, false
 	}
 	c.Run.Unknown(rule, key, fpos(c, fn), "one call of "+callee+" in "+fnKey(fn), fmt.Sprintf("%d calls", len(sites)))
